@@ -1,6 +1,7 @@
 package verifsim
 
 import (
+	"errors"
 	"crypto/sha256"
 	"encoding/binary"
 	"sync"
@@ -120,6 +121,7 @@ type authSim struct {
 	srv      *http.Server
 	lis      *simListener
 	failTok  bool
+	sqlFaults, failNextCommit bool
 	useAuth  bool
 	wsChecks int
 }
@@ -148,7 +150,23 @@ func authsimRun(r *Run) {
 	}
 	w.AfterServices = func(w *World) { a.startWS() }
 	defer a.stopWS()
-	w.Open()
+	// a third of the C10 runs go through the wrapper SQL driver, which can make the COMMIT of a create / revoke fail
+	a.sqlFaults = r.Prop == "C10" && t.Chance(1, 3, "sql-faults")
+	r.Cfg["sql_faults"] = a.sqlFaults
+	defer func() { sqlFail = nil }()
+	if a.sqlFaults {
+		sqlFail = func(op, q string) error {
+			if op == "commit" && a.failNextCommit {
+				a.failNextCommit = false
+				r.Fault("commit-error")
+				return errors.New("simnet: database is locked (SQLITE_BUSY) at COMMIT")
+			}
+			return nil
+		}
+		w.OpenSim()
+	} else {
+		w.Open()
+	}
 	// a few headers so that data routes have something to serve
 	h := NewHist(r, w)
 	h.SkipChecks = true
@@ -172,7 +190,12 @@ func authsimRun(r *Run) {
 			a.authenticate()
 		case 3:
 			a.stopWS()
-			w.Restart()
+			w.Close()
+			if a.sqlFaults {
+				w.OpenSim()
+			} else {
+				w.Open()
+			}
 			restarts++
 			r.Logf("restart")
 			a.checkAll("after-restart")
@@ -226,7 +249,19 @@ func bearer(tok string) map[string]string { return map[string]string{"Authorizat
 
 func (a *authSim) create() {
 	r := a.r
+	faulty := a.sqlFaults && r.T.Chance(1, 4, "fail-create-commit")
+	a.failNextCommit = faulty
 	code, body := a.w.HTTP("POST", "/api/v1/access", nil, bearer(a.admin))
+	a.failNextCommit = false
+	if faulty && code != 200 {
+		// the store refused; the API said so; nothing may have changed
+		r.Logf("create with failing COMMIT -> %d", code)
+		if code >= 500 {
+			r.Fail("C10", "create", "commit-error-5xx", "POST /access with a failing COMMIT -> %d %s", code, string(body))
+		}
+		a.checkAll("after-failed-create")
+		return
+	}
 	var tk struct {
 		Token   string `json:"token"`
 		IsAdmin bool   `json:"isAdmin"`
@@ -251,12 +286,14 @@ func (a *authSim) revoke() {
 	r, t := a.r, a.r.T
 	kind := t.Pick([]int{50 * boolInt(len(a.live) > 0), 15, 15, 20 * boolInt(len(a.revoked) > 0)}, "revoke-kind")
 	var tok, what string
+	faulty := false
+	liveIdx := -1
 	switch kind {
 	case 0:
 		k := t.Draw(len(a.live), "revoke-idx")
 		tok, what = a.live[k], "existing"
-		a.live = append(a.live[:k], a.live[k+1:]...)
-		a.revoked = append(a.revoked, tok)
+		liveIdx = k
+		faulty = a.sqlFaults && t.Chance(1, 4, "fail-revoke-commit")
 	case 1:
 		tok, what = fmt.Sprintf("unknown%d", a.r.Step), "unknown"
 	case 2:
@@ -264,9 +301,16 @@ func (a *authSim) revoke() {
 	case 3:
 		tok, what = a.revoked[t.Draw(len(a.revoked), "revoked-idx")], "already-revoked"
 	}
+	a.failNextCommit = faulty
 	code, body := a.w.HTTP("DELETE", "/api/v1/access/"+tok, nil, bearer(a.admin))
-	r.Logf("revoke %s (%s) -> %d", tok, what, code)
-	if code >= 500 || (what == "existing" && code != 200) {
+	a.failNextCommit = false
+	r.Logf("revoke %s (%s, failing COMMIT: %v) -> %d", tok, what, faulty, code)
+	// the model follows the ANSWER: a revocation that was acknowledged must hold, one that was refused must not
+	if liveIdx >= 0 && code == 200 {
+		a.live = append(a.live[:liveIdx], a.live[liveIdx+1:]...)
+		a.revoked = append(a.revoked, tok)
+	}
+	if code >= 500 || (what == "existing" && code != 200 && !faulty) {
 		r.Fail("C10", "revoke", what+fmt.Sprintf("|%d", code), "DELETE /access/%s (%s) -> %d %s", tok, what, code, string(body))
 	}
 	a.checkAll("after-revoke-" + what)
